@@ -465,6 +465,13 @@ def store_case(cfg):
     E = used[0]
     obs['store_used'] = E
     obs['check_rc'] = cli('check').returncode
+    # the same location addressed through the plain file backend (a keep-alive store is an ordinary file store as far as results go: `jug status` of a colleague
+    # without the prefix, a script opening the directory): it must be the directory the prefixed commands used
+    tmpl_ = cfg['cli'] if cfg['cli'] is not None else cfg['ini']
+    if isinstance(tmpl_, str) and tmpl_.startswith('file_keepalive:') and not cfg['override']:
+        plain_ = tmpl_[len('file_keepalive:'):]
+        rr = jug_cli(['check', '--jugdir', plain_, cfg['jugfile']], cwd)
+        obs['check_plain'] = (plain_, rr.returncode)
     obs['sleep_until_rc'] = 0
     if obs['check_rc'] == 0:        # otherwise it would (rightly, from its point of view) wait for ever
         import subprocess
@@ -507,7 +514,10 @@ def store_family(run, drv, rng, date, quick):
             dict(cli='cli-%(jugfile)s-d', ini='rc.store', override=None), dict(cli=None, ini=None, override='chosen.by.jugfile'), dict(cli='viacli', ini=None, override='chosen2'),
             dict(cli=None, ini='%(date)s.rc', override='sub/chosen3'),
             # a leading ~ is not special to jug (the shell expands it when it is unquoted): every command must treat it the same way
-            dict(cli=None, ini='~/tilde/%(jugfile)s.st', override=None), dict(cli='~/t2', ini=None, override=None)]
+            dict(cli=None, ini='~/tilde/%(jugfile)s.st', override=None), dict(cli='~/t2', ini=None, override=None),
+            # a colon inside the location (time stamps, drive-like names): part of the path for the file backends - with and without a backend prefix
+            dict(cli='runs-12:30/%(jugfile)s.st', ini=None, override=None), dict(cli='file_keepalive:ka-12:30/%(jugfile)s.d', ini=None, override=None),
+            dict(cli=None, ini='file_keepalive:rc:%(jugfile)s:x', override=None)]
     for i in range(0 if quick else 12):
         t = gen_template(rng, False)
         if t.startswith('-') or '/' in t or t in ('dict_store',) or t.startswith('redis:') or not t.strip():
@@ -521,6 +531,8 @@ def store_family(run, drv, rng, date, quick):
             exp = drv.ask({'op': 'storefor', 'template': tmpl, 'jugfile': jf, 'date': date, 'override': b['override']})
         else:
             exp = b['override'] or (tmpl % {'jugfile': jf[:-3], 'date': date})
+        if isinstance(exp, str) and exp.startswith('file_keepalive:'):
+            exp = exp[len('file_keepalive:'):]        # the keep-alive file backend: same directory layout, the location is what follows the prefix
         cfgs.append(dict(b, jugfile=jf, cwd=os.path.join(scratch, 'p%d' % i), expected=exp, template=tmpl))
     try:
         with ThreadPoolExecutor(8) as ex:
@@ -542,6 +554,9 @@ def store_family(run, drv, rng, date, quick):
                 continue
             if obs['check_rc'] != 0:
                 run.fail('store-differs:check', '%s: after a complete `jug execute`, `jug check` exits %s: it looks at a different store' % (desc, obs['check_rc']), rp)
+            if obs.get('check_plain') and obs['check_plain'][1] != 0:
+                run.fail('store-differs:prefix', '%s: after a complete `jug execute`, `jug check --jugdir %s` (the same location without the backend prefix) exits %s: the prefixed commands used the directory %r'
+                         % (desc, obs['check_plain'][0], obs['check_plain'][1], obs.get('store_used')), rp)
             if obs['sleep_until_rc'] != 0:
                 run.fail('store-differs:sleep-until', '%s: after a complete `jug execute`, `jug sleep-until` exits %s' % (desc, obs['sleep_until_rc']), rp)
             if obs['locks_left'] != 0:
